@@ -729,30 +729,52 @@ def r_vla_size(P, rep):
             rep.ob('R04.12', key, not msgs, '; '.join(msgs), where=where)
 
 
-def r_bitfield_unit(P, rep):
-    """the bit-field accessors load and store one unit of the declared type at member->offset (R04.2/R04.3); that designates the field's
-    bits only if the layout puts [bit_offset, bit_offset+bit_width) inside that unit. Decided on C08's summary of the struct layout step
-    (struct_decl interpreted per member class, evaluated on the layout grid)"""
+def _layout_summaries(P):
+    """C08's summary of the layout step of struct_decl and union_decl (one run, shared by R04.11 / R04.16 / R04.19)"""
     from ..report import Report
     from . import c08
-    rep.rule('R04.11', 'struct layout keeps every bit-field inside the storage unit the code generator accesses: 0 <= bit_offset and bit_offset + bit_width <= 8 * sizeof(declared type), packed or not', floor=2)
     pu = P.unit('parse.c')
     sub = Report('C08')
     sub.rule('R08.3', '', 1)
-    c08.layout_fn(P, pu, sub, 'struct_decl', False)
+    for fname, union in (('struct_decl', False), ('union_decl', True)):
+        try:
+            c08.layout_fn(P, pu, sub, fname, union)
+        except AnalysisBroken as e:
+            sub.undecided('R08.3', 'parse.c:%s:layout' % fname, 'analysis could not proceed: %s' % e)
+    return sub
+
+
+def _initializer_report(P):
+    """all of C05 (one run, shared by R04.16 / R04.21); an exception instead of a report when the rules could not be run"""
+    from ..report import Report
+    from . import c05
+    sub5 = Report('C05')
+    try:
+        c05.run(P, sub5, 'quick')
+    except Exception as e:
+        return e
+    return sub5
+
+
+def r_bitfield_unit(P, rep, sub=None, sub5=None):
+    """the bit-field accessors load and store one unit of the declared type at member->offset (R04.2/R04.3); that designates the field's
+    bits only if the layout puts [bit_offset, bit_offset+bit_width) inside that unit. Decided on C08's summary of the struct layout step
+    (struct_decl interpreted per member class, evaluated on the layout grid)"""
+    rep.rule('R04.11', 'struct layout keeps every bit-field inside the storage unit the code generator accesses: 0 <= bit_offset and bit_offset + bit_width <= 8 * sizeof(declared type), packed or not', floor=2)
+    if sub is None:
+        sub = _layout_summaries(P)
+    if sub5 is None:
+        sub5 = _initializer_report(P)
     n = 0
     # the same summary also says what sizeof is: objects of the type are laid out sizeof apart (arrays, adjacent locals), so the final size must be
     # the extent rounded up to the alignment, packed or not
     from ..report import reissue
     rep.rule('R04.16', 'object extent: the final size of a struct is its members\' extent rounded up to the struct\'s alignment (also for packed + aligned), and an object completed by a flexible-array initialiser is at least sizeof(struct) and covers the initialised elements (shared with C08 R08.3 final-size and C05 R05.9)', floor=3)
     reissue(rep, 'R04.16', sub, 'neighbouring objects would overlap or be misaligned: ', keep=lambda o: ':final-size' in o['key'])
-    from . import c05
-    sub5 = Report('C05')
-    try:
-        c05.run(P, sub5, 'quick')
+    if isinstance(sub5, Exception):
+        rep.undecided('R04.16', 'parse.c:initializer:flexible-struct-size', 'C05 rules could not be run: %s' % sub5)
+    else:
         reissue(rep, 'R04.16', sub5, 'the object is smaller than the bytes its type designates: ', keep=lambda o: o['key'].startswith('R05.9:'))
-    except Exception as e:
-        rep.undecided('R04.16', 'parse.c:initializer:flexible-struct-size', 'C05 rules could not be run: %s' % e)
     for o in sub.obs:
         if o['key'].endswith('/unit-fit'):
             n += 1
@@ -763,6 +785,82 @@ def r_bitfield_unit(P, rep):
                 rep.ob('R04.11', key, o['verdict'] == 'holds', o['what'], where=o['where'], facts=o['facts'])
     if n == 0:
         rep.undecided('R04.11', 'parse.c:struct_decl:unit-fit', 'the struct layout step could not be summarised for bit-field members (see C08 R08.3)')
+
+
+LAYOUT_GROUPS = ('/placement', '/union-size', '/type-align')
+
+
+def r_members_inside(P, rep, sub):
+    """R04.19: `s.m` is the bytes [offset, offset + sizeof m) of s (R04.4) - they are bytes of s, and of no other member, only if every layout step
+    puts the member behind what is already used, at a multiple of its alignment, and makes the aggregate's running size and alignment cover it.
+    C08 R08.3 decides exactly that per member class (plain, _Alignas, anonymous struct/union, named / unnamed / zero-width bit-field; packed or
+    not) for struct_decl and union_decl on the layout grid; its step obligations are re-issued here (the bit-field unit is R04.11, the rounding
+    of the final size R04.16)."""
+    from ..report import reissue
+    rep.rule('R04.19', 'every member lies inside its aggregate and beside the other members: each step of struct_decl / union_decl places the member at or behind the bytes used so far, '
+                       'aligned to its own (possibly _Alignas-raised) alignment, and raises the running size (union: to at least the member\'s size) and the alignment of the aggregate to cover it - '
+                       'for every member class, anonymous struct/union members included; a complete type always reaches the layout loop (shared with C08 R08.3)', floor=60)
+    n = reissue(rep, 'R04.19', sub, 'a member access would reach outside the object or into another member: ',
+                keep=lambda o: o['key'].endswith(LAYOUT_GROUPS) or ':entry' in o['key'] or o['verdict'] == 'undecided' and not o['key'].endswith('/unit-fit') and ':final-size' not in o['key'])
+    if n == 0:
+        rep.undecided('R04.19', 'parse.c:struct_decl:layout', 'C08 R08.3 produced no layout-step obligation')
+
+
+STATIC_HOME = (':align/', ':placement/', ':in-section/', ':symbol-size/common')
+
+
+def r_static_home(cg, rep):
+    """R04.20: the counterpart of R04.5 for objects with static storage duration: emit_data gives the object a home of exactly sizeof bytes at an
+    address that satisfies the object's own alignment (Obj.align, which carries _Alignas - R04.18), at least 16 for arrays of 16 bytes or more.
+    Decided by C15 R15.1 on every class of emitted object (.data/.bss/.tdata/.tbss/.comm); re-issued."""
+    from ..report import Report, reissue
+    from . import c15
+    rep.rule('R04.20', 'static storage: every defined object is emitted under exactly one label, reserves exactly the size of its type (.zero / the data image / the .comm size operand) and is aligned '
+                       'by a directive in its own section (or the .comm operand) to the OBJECT\'s alignment - the declared one, max(16, that) for arrays of at least 16 bytes (shared with C15 R15.1)', floor=10)
+    sub = Report('C15')
+    try:
+        c15.r151(cg, sub)
+    except AnalysisBroken as e:
+        rep.undecided('R04.20', 'codegen.c:emit_data:static-home', 'C15 R15.1 could not be run: %s' % e); return
+    except Exception as e:
+        rep.undecided('R04.20', 'codegen.c:emit_data:static-home', 'C15 R15.1 could not be run: %s' % e); return
+    n = reissue(rep, 'R04.20', sub, 'the object does not live at an address / in a block that fits its declaration: ', keep=lambda o: any(g in o['key'] for g in STATIC_HOME))
+    if n == 0:
+        rep.undecided('R04.20', 'codegen.c:emit_data:static-home', 'C15 R15.1 produced no placement / alignment obligation')
+
+
+def _init_designation(o):
+    k = o['key']
+    if k.startswith('R05.4:'):
+        return True                                                   # static bit-field: unit address, unit width, mask, shift
+    if k.startswith('R05.1:'):
+        # the sub-object each back end descends into / assigns to: element i at i * sizeof(element), member at its offset, the chosen union member
+        return any(f in k for f in (':write_gvar_data:', ':create_lvar_init:', ':init_desg_expr:')) and '-valued-initializer' not in k
+    if k.startswith('R05.2:'):
+        return ':write_gvar_data:scalar' in k or ':create_lvar_init:scalar' in k      # address and width of the store of a scalar sub-object
+    if k.startswith('R05.7:'):
+        return ':write_gvar_data:relocation' in k                      # an address constant is recorded at the sub-object's offset
+    if k.startswith('R05.3:'):
+        return ':gvar_initializer:image' in k or 'root-designator' in k or 'final-type' in k
+    if k.startswith('R05.5:'):
+        return k.endswith(':walk')                                     # image byte i / relocation at offset i is emitted at offset i of the object
+    return False
+
+
+def r_init_designation(P, rep, sub5):
+    """R04.21: an initialiser is a sequence of stores to sub-objects; each must designate exactly the bytes (bits) of ITS sub-object relative to the
+    start of the object being initialised at that level: buf + offset (+ member offset | + i * element size) in the static back end, the
+    designator chain var / .member / [i] in the automatic one. Decided by C05 (R05.1 positions, R05.2 scalar stores, R05.4 bit-field merge, R05.7
+    relocation offset, R05.3 image/root, R05.5 image walk); re-issued."""
+    from ..report import reissue
+    rep.rule('R04.21', 'initialiser stores designate their sub-object: both back ends reach element i at i * sizeof(element) and a member at its offset FROM THE ENCLOSING sub-object (static: buf + offset + ..., '
+                       'automatic: designator chain ending in the variable), a scalar is stored with exactly its width there, a static bit-field is merged into the unit at buf + offset + member offset '
+                       'with the unit\'s width, an address constant is recorded at the sub-object\'s offset, the image starts at offset 0 and is emitted byte for byte (shared with C05 R05.1-R05.5, R05.7)', floor=34)
+    if isinstance(sub5, Exception):
+        rep.undecided('R04.21', 'parse.c:write_gvar_data:designation', 'C05 rules could not be run: %s' % sub5); return
+    n = reissue(rep, 'R04.21', sub5, 'an initialising store goes to other bytes than those of the sub-object it initialises: ', keep=_init_designation)
+    if n == 0:
+        rep.undecided('R04.21', 'parse.c:write_gvar_data:designation', 'C05 produced no obligation about the position of initialising stores')
 
 
 def r_single_eval(P, rep):
@@ -865,7 +963,12 @@ def run(P, rep, tier):
     rep.rule('R04.7', 'alloca: size rounded to 16, pending temporaries relocated byte for byte over the full count, %rsp and the bottom pointer move together, block address returned; the bottom pointer starts at the frame bottom', floor=7)
     r_alloca(cg, rep)
     r_alloca_bottom_init(cg, P, rep)
-    r_bitfield_unit(P, rep)
+    sub8 = _layout_summaries(P)
+    sub5 = _initializer_report(P)
+    r_bitfield_unit(P, rep, sub8, sub5)
+    r_members_inside(P, rep, sub8)
+    r_static_home(cg, rep)
+    r_init_designation(P, rep, sub5)
     r_vla_size(P, rep)
     from ..lib_types import r_pointer_scaling
     rep.rule('R04.10', 'element addresses: p+n / p[n] / p-n scale the index by the element size in 64-bit arithmetic (shared with R01.3)', floor=9)
